@@ -186,3 +186,89 @@ func VerifC08_H2ServerSettings() {
 	verif.Assert(int(taken) <= ask && taken <= 1000, "a body write took more than asked or than the window")
 	verif.Cover("end")
 }
+
+// VerifC18_ServerTwoWriters: two response writers of one downstream
+// connection wait for window on different streams (both stream windows
+// exhausted). The client grants window to one of them - the one that started
+// waiting first or the other - with a stream-level WINDOW_UPDATE: the writer
+// of that stream goes on (whichever waiter a single wake-up would pick), the
+// other keeps waiting. Then the second stream is granted window too.
+func VerifC18_ServerTwoWriters() {
+	verif.Switches(0)
+	DebugGoroutines = false
+	sc := NewServerConn(zzSinkConn{})
+	mk := func(id uint32) (*stream, *MStream) {
+		st := &stream{id: id, state: stateOpen}
+		st.flow.conn = &sc.flow
+		sc.streams[id] = st
+		return st, &MStream{stream: st, conn: sc}
+	}
+	_, msA := mk(1)
+	_, msB := mk(3)
+	sc.maxClientStreamID = 3
+	sc.flow.n = 1 << 20
+	doneA, doneB := false, false
+	var tA, tB int32
+	go func() { tA, _ = msA.awaitFlowControl(100); doneA = true }()
+	verif.Settle()
+	go func() { tB, _ = msB.awaitFlowControl(100); doneB = true }()
+	verif.Settle()
+	verif.Assert(!doneA && !doneB, "DATA was sent on a stream with an exhausted window")
+	first := uint32(1 + 2*verif.Choose("granted_first", 2))
+	upd := func(id uint32) {
+		f := &WindowUpdateFrame{FrameHeader: FrameHeader{valid: true, Type: FrameWindowUpdate, Length: 4, StreamID: id}, Increment: 50}
+		verif.Assert(sc.processWindowUpdate(f) == nil, "a legal WINDOW_UPDATE was refused")
+		verif.Settle()
+	}
+	upd(first)
+	if first == 1 {
+		verif.Assert(doneA && tA == 50, "the writer of the stream that was granted window did not go on (the body is never completed)")
+		verif.Assert(!doneB, "a writer went on without window")
+	} else {
+		verif.Assert(doneB && tB == 50, "the writer of the stream that was granted window did not go on (the body is never completed)")
+		verif.Assert(!doneA, "a writer went on without window")
+	}
+	upd(4 - first)
+	verif.Assert(doneA && doneB && tA == 50 && tB == 50, "after both streams were granted window a writer is still waiting")
+	verif.Cover("end")
+}
+
+// VerifC18_ClientTwoWriters: the same for two request body writers of one
+// upstream connection.
+func VerifC18_ClientTwoWriters() {
+	verif.Switches(0)
+	cc := NewClientConn(zzSinkConn{})
+	csA := cc.newStream()
+	cc.streams[csA.ID] = csA
+	csB := cc.newStream()
+	cc.streams[csB.ID] = csB
+	csA.flow.n, csB.flow.n = 0, 0
+	cc.flow.n = 1 << 20
+	mA := &MClientStream{clientStream: csA, conn: cc}
+	mB := &MClientStream{clientStream: csB, conn: cc}
+	doneA, doneB := false, false
+	var tA, tB int32
+	go func() { tA, _ = mA.awaitFlowControl(100); doneA = true }()
+	verif.Settle()
+	go func() { tB, _ = mB.awaitFlowControl(100); doneB = true }()
+	verif.Settle()
+	verif.Assert(!doneA && !doneB, "DATA was sent on a stream with an exhausted window")
+	ids := []uint32{csA.ID, csB.ID}
+	k := verif.Choose("granted_first", 2)
+	upd := func(id uint32) {
+		f := &WindowUpdateFrame{FrameHeader: FrameHeader{valid: true, Type: FrameWindowUpdate, Length: 4, StreamID: id}, Increment: 50}
+		verif.Assert(cc.processWindowUpdate(f) == nil, "a legal WINDOW_UPDATE was refused")
+		verif.Settle()
+	}
+	upd(ids[k])
+	if k == 0 {
+		verif.Assert(doneA && tA == 50, "the writer of the stream that was granted window did not go on (the body is never completed)")
+		verif.Assert(!doneB, "a writer went on without window")
+	} else {
+		verif.Assert(doneB && tB == 50, "the writer of the stream that was granted window did not go on (the body is never completed)")
+		verif.Assert(!doneA, "a writer went on without window")
+	}
+	upd(ids[1-k])
+	verif.Assert(doneA && doneB && tA == 50 && tB == 50, "after both streams were granted window a writer is still waiting")
+	verif.Cover("end")
+}
